@@ -14,9 +14,11 @@ package querystring
 //@   modifies filterJSON.*
 //@ func filterFromJSON
 //@   serves C12
+//@   at entry 0 before assert[configuration-keys-are-the-documented-ones] jsonkey(filterJSON.Modifier) == "modifier" && jsonkey(filterJSON.ElseModifier) == "else" && jsonkey(filterJSON.Scope) == "scope" && jsonkey(filterJSON.Name) == "name" && jsonkey(filterJSON.Value) == "value"
 //@   modifies fjErr
 //@   noframe
 //@   at entry 0 before set fjErr = false
+//@   at call 0 of NewFilter before assert[condition-is-built-from-the-corresponding-fields-of-the-message] arg0 == msg.Name && arg1 == msg.Value
 //@   ensures[a-parse-error-in-any-subtree-rejects-the-node] fjErr ==> result1 != nil && result0 == nil
 //@   at call 0 of RequestWhenTrue before assert[then-branch-request-side-from-modifier] self == f.Filter && arg0 == r.reqmod
 //@   at call 0 of ResponseWhenTrue before assert[then-branch-response-side-from-modifier] self == f.Filter && arg0 == r.resmod
